@@ -953,6 +953,9 @@ def older_stmt(s):
                     collect(c)
             elif n2.get("kind") == "CXXMemberCallExpr":
                 items.append(age_call(n2))
+            elif n2.get("kind") == "CallExpr" and callee(n2) == "max":      # std::max(x, std::max(y, z))
+                for c in call_args(n2):
+                    collect(c)
             else:
                 raise Refuse("std::max over %s" % n2.get("kind"))
         for c in call_args(lst):
